@@ -320,16 +320,19 @@ struct Handler<std::basic_string<T>> {
   }
 };
 
+// the raw fast path is only taken when the pair object has no padding, so that the
+// layout is always first followed by second (same bytes as on a byte-swapping host)
 template <typename TA, typename TB>
 struct Handler<std::pair<TA, TB>> {
   inline static void Write(Stream *strm, const std::pair<TA, TB> &data) {
-    IfThenElse<dmlc::is_pod<TA>::value && dmlc::is_pod<TB>::value && DMLC_IO_NO_ENDIAN_SWAP,
+    IfThenElse<dmlc::is_pod<TA>::value && dmlc::is_pod<TB>::value && DMLC_IO_NO_ENDIAN_SWAP
+                   && sizeof(std::pair<TA, TB>) == sizeof(TA) + sizeof(TB),
         NativePODHandler<std::pair<TA, TB>>, PairHandler<TA, TB>, std::pair<TA, TB>>::Write(strm,
         data);
   }
   inline static bool Read(Stream *strm, std::pair<TA, TB> *data) {
     return IfThenElse < dmlc::is_pod<TA>::value && dmlc::is_pod<TB>::value
-               && DMLC_IO_NO_ENDIAN_SWAP,
+               && DMLC_IO_NO_ENDIAN_SWAP && sizeof(std::pair<TA, TB>) == sizeof(TA) + sizeof(TB),
            NativePODHandler<std::pair<TA, TB>>, PairHandler<TA, TB>,
            std::pair<TA, TB> > ::Read(strm, data);
   }
